@@ -47,6 +47,7 @@ type Solver struct {
 	emittedSet []bool
 	Fallbacks  []*Solver // tried in order when this solver answers unknown
 	NFallback  int
+	NKilled    int
 
 	preferFallback bool
 }
@@ -98,7 +99,7 @@ func NewSolver(kind string, timeoutMs int) (*Solver, error) {
 		return nil, fmt.Errorf("unknown solver %q", kind)
 	}
 	if p := os.Getenv("SYMGO_SMTLOG"); p != "" {
-		f, err := os.Create(p + "." + kind)
+		f, err := os.Create(fmt.Sprintf("%s.%d.%s", p, os.Getpid(), kind))
 		if err == nil {
 			s.log = f
 		}
@@ -296,6 +297,15 @@ func ufSig(t *Term) string {
 }
 
 func (s *Solver) readLine() string {
+	// watchdog: a solver that ignores its own time limit is killed (the read then fails
+	// and the query is reported as an error, i.e. inconclusive)
+	cmd := s.cmd
+	timer := time.AfterFunc(time.Duration(s.Timeout+15000)*time.Millisecond, func() {
+		if cmd != nil && cmd.Process != nil {
+			cmd.Process.Kill()
+		}
+	})
+	defer timer.Stop()
 	line, err := s.out.ReadString('\n')
 	if err != nil {
 		return "(error \"solver died: " + err.Error() + "\")"
@@ -381,7 +391,11 @@ func (s *Solver) Check(pc []*Term, q *Term, vars []*Term) (Result, map[string]ui
 		res = Unknown
 	default:
 		// error: record, drain, restart the process to get back to a clean state
-		s.Errors = append(s.Errors, line)
+		if strings.Contains(line, "solver died") {
+			s.NKilled++ // watchdog: counts as unknown, not as a protocol error
+		} else {
+			s.Errors = append(s.Errors, line)
+		}
 		s.restart()
 		s.Seconds += time.Since(start).Seconds()
 		for _, f := range s.Fallbacks {
